@@ -1,4 +1,4 @@
 From Coq Require Import Extraction ExtrOcamlBasic.
 From IV Require Import Base.Bytes Model.Hub.
 Extraction Language OCaml.
-Extraction "c15_model.ml" conv_anchor drive_pinned oracle_pinned pinned_cfg expected strip.
+Extraction "c15_model.ml" conv_anchor drive_pinned oracle_pinned pinned_cfg expected strip spec_history.
